@@ -278,7 +278,7 @@ MEMBERS_VALUES = ["zz_ms", "zz_f(zz_t)", "zz_f()", "zz_o.m(zz_t)", "zz_t.getmemb
                   "(lambda: zz_x)()", "zz_a[0]()", "list(zz_t)", "zz_f(zz_t)(zz_u)", "zz_o.a.b()", "é_fn(zz_t)",
                   "members", "é_ms", "Function", "(zz_ms)", "(zz_f)(zz_t)", "zz_f(*zz_a, **zz_k)",
                   "zz_f({[1]})"]
-FILTER_VALUES = ["'data'", "\"data\"", "'tar'", "'fully_trusted'", "b'data'", "zz_flt", "tarfile.data_filter",
+FILTER_VALUES = ["'data'", "\"data\"", "'tar'", "'fully_trusted'", "data", "zz_o.data", "b'data'", "zz_flt", "tarfile.data_filter",
                  "None", "f'data'", "'da' 'ta'", "'da' + 'ta'", "{[1]}", "'Data'", "'data '", "''", "zz_f()",
                  "['data']", "('data')", "u'data'", "r'data'", "'''data'''", "True", "0"]
 
